@@ -75,7 +75,7 @@ class HarnessBuild:
         cfile = os.path.join(self.work, 'gen%s.c' % tag)
         rep = os.path.join(self.work, 'report%s.json' % tag)
         tspec = {'replace': sp.get('replace', {}), 'c_include': [os.path.join(self.dir, c) if not os.path.exists(os.path.join(P.RT, c)) else c for c in sp.get('c_include', [])],
-                 'rt_provided': sp.get('rt_provided', []), 'allow_unmatched': sp.get('allow_unmatched', False)}
+                 'rt_provided': sp.get('rt_provided', []), 'c_defines': sp.get('c_defines', {}), 'no_dynamic_init': sp.get('no_dynamic_init', []), 'allow_unmatched': sp.get('allow_unmatched', False)}
         P.translate(ll, entries, tspec, cfile, rep, sp.get('scale'))
         self.times['ir2c'] = round(time.time() - t0, 2)
         report = json.load(open(rep))
@@ -118,13 +118,14 @@ def native_replay(hb, ll, entry, inputs, outdir, tag):
     if sp.get('scale'):
         return 'unavailable', [], 'scaled-width harness: native replay not meaningful'
     rll = os.path.join(outdir, 'replay_%s.ll' % tag)
-    cmd = [sys.executable, os.path.join(P.TOOLS, 'irstub.py'), ll, '-o', rll, '--spec', os.path.join(hb.work, 'gen.c.spec.json')]
+    inits = ','.join((hb.report or {}).get('dynamic_initialisers_run', []))
+    cmd = [sys.executable, os.path.join(P.TOOLS, 'irstub.py'), ll, '-o', rll, '--spec', os.path.join(hb.work, 'gen.c.spec.json'), '--inits', inits]
     rc, so, se, dt = P.run(cmd, timeout=300)
     if rc != 0:
         return 'unavailable', [], 'irstub: ' + se[-800:]
     exe = os.path.join(outdir, 'replay_%s' % tag)
     drv = os.path.join(outdir, 'drv_%s.c' % tag)
-    open(drv, 'w').write('void %s(void);\nint replay_finish(void);\nint main(void){ %s(); return replay_finish(); }\n' % (entry, entry))
+    open(drv, 'w').write('void %s(void);\nvoid ir2c_global_init_native(void);\nint replay_finish(void);\nint main(void){ ir2c_global_init_native(); %s(); return replay_finish(); }\n' % (entry, entry))
     extra = []
     for c in sp.get('native_c', []):
         extra.append(os.path.join(hb.dir, c) if os.path.exists(os.path.join(hb.dir, c)) else os.path.join(P.RT, c))
@@ -147,7 +148,7 @@ def native_replay(hb, ll, entry, inputs, outdir, tag):
 def input_values(trace):
     vals = []
     for st in trace or []:
-        if st.get('stepType') == 'assignment' and (st.get('lhs') or '').startswith('ir2c_in_u'):
+        if st.get('stepType') == 'assignment' and not st.get('hidden') and (st.get('lhs') or '').startswith('ir2c_in_u'):
             v = st.get('value', {})
             b = v.get('binary')
             vals.append(int(b, 2) if b else int(re.sub(r'[^0-9-]', '', v.get('data', '0')) or 0))
